@@ -33,7 +33,10 @@ inductive Operand where
   | sb (s : Sym) (off : Nat)
   deriving DecidableEq, Repr, Hashable, Inhabited
 
-/-- instructions, operands in Plan 9 order (source first); jump targets are instruction indices -/
+/-- instructions, operands in Plan 9 order (source first); jump targets are instruction indices.
+Read-modify-write instructions carry `lk`: with a memory destination and no LOCK prefix they are NOT
+atomic (the machine executes them as a read step and a write step); `XCHGL` with a memory operand is
+implicitly locked. -/
 inductive Instr where
   | movq (src dst : Operand)
   | movl (src dst : Operand)
@@ -41,7 +44,12 @@ inductive Instr where
   | testl (a b : Operand)
   | testq (a b : Operand)
   | cmpl (a b : Operand)
-  | decl (a : Operand)
+  /-- `XORL a, b`: b ^= a. `lk` = the instruction carries a LOCK prefix -/
+  | xorl (lk : Bool) (a b : Operand)
+  /-- `DECL a` -/
+  | decl (lk : Bool) (a : Operand)
+  /-- `CMPXCHGL src, dst`: if EAX = dst then (ZF := 1; dst := src) else (ZF := 0; EAX := dst; dst rewritten) -/
+  | cmpxchgl (lk : Bool) (src dst : Operand)
   | jz (target : Nat)
   | jnz (target : Nat)
   | jmp (target : Nat)
